@@ -12,3 +12,4 @@ CONSTANTS
 INIT ExhInit
 NEXT ExhNext
 INVARIANT Emit
+INVARIANT LocateLemma
